@@ -4,6 +4,7 @@ import (
 	"bytes"
 	"fmt"
 	"io"
+	"math"
 	"os"
 	"runtime/debug"
 	"sync/atomic"
@@ -196,6 +197,14 @@ func runC15Enum(rc *runCtx) *RunResult {
 			res.Viol = &Violation{Kind: "decode-rejects-valid", Site: ct.name, Detail: "Decode rejected the library's own encoding of a valid " + ct.name + " (reader=" + sh.name + ")"}
 			return res
 		}
+		for phase := 0; phase < 8 && phase < len(enc); phase++ {
+			for _, b := range []byte{0x00, 0x20, 0x3f, 0x5f, 0x7f, 0xa0, 0xff} {
+				f := simio.Fault{Kind: "stride8", Off: phase, Arg: uint64(b)}
+				if !try("stride8", simio.Apply(enc, f), f.String(), sh.plan, sh.br, sh.name) {
+					return res
+				}
+			}
+		}
 		for n := 0; n < len(enc); n += stride { // every truncation length
 			f := simio.Fault{Kind: "truncate", Off: n}
 			if !try("truncate", simio.Apply(enc, f), f.String(), sh.plan, sh.br, sh.name) {
@@ -299,6 +308,60 @@ func runC15Seq(rc *runCtx) *RunResult {
 			desc = fmt.Sprintf("splice %s[:%d] + %s[%d:]", ct.name, cut, ct2.name, cut2)
 		}
 		rc.inc("fault_splice", 1)
+	case mode == 3 && (ct.name == "Loop" || ct.name == "Polyline"):
+		// hostile but well-formed stream: a lossless loop / polyline whose vertices are arbitrary
+		// finite coordinates (any scale, repeated, antipodal, zig-zag between far points, collinear)
+		// instead of the vertices of a valid shape. Format knowledge used: version byte, 32-bit count,
+		// 24 bytes per vertex; the rest of the stream is the tail of the valid encoding.
+		nv := 1 + int(t.Uint(48))
+		if t.Chance(300) {
+			nv = 33 + int(t.Uint(40))
+		}
+		pool := make([]s2.Point, 2+int(t.Uint(4)))
+		for i := range pool {
+			pool[i] = g.Point()
+		}
+		scale := 1.0
+		switch t.Uint(6) {
+		case 1:
+			scale = 1e-150
+		case 2:
+			scale = 1e-300
+		case 3:
+			scale = 1e150
+		case 4:
+			scale = 1 + 1e-9
+		}
+		data = []byte{1, byte(nv), byte(nv >> 8), 0, 0}
+		putF := func(x float64) {
+			b := math.Float64bits(x)
+			for k := 0; k < 8; k++ {
+				data = append(data, byte(b>>(8*uint(k))))
+			}
+		}
+		for i := 0; i < nv; i++ {
+			p := pool[int(t.Uint(uint32(len(pool))))]
+			if t.Chance(300) {
+				p = g.PointNear(p, 1e-3)
+			}
+			if t.Chance(50) {
+				p = s2.Point{Vector: p.Vector.Mul(-1)}
+			}
+			putF(p.X * scale)
+			putF(p.Y * scale)
+			putF(p.Z * scale)
+		}
+		// tail of the valid encoding (flags, depth, bound for a loop; nothing for a polyline)
+		if ct.name == "Loop" {
+			if l, ok := v.(*s2.Loop); ok {
+				skip := 5 + 24*l.NumVertices()
+				if skip <= len(enc) {
+					data = append(data, enc[skip:]...)
+				}
+			}
+		}
+		desc = fmt.Sprintf("hostile %s: %d arbitrary vertices from a pool of %d, scale %g", ct.name, nv, len(pool), scale)
+		rc.inc("fault_hostile_geometry", 1)
 	case mode == 2 && ct.name == "Polygon" && len(enc) > 7 && enc[0] == 1:
 		// loop-level splice of a lossless polygon: the stream is re-assembled from the library's own
 		// encodings of the loops (Loop.Encode writes exactly what Polygon.Encode writes per loop), with
@@ -393,6 +456,9 @@ func runC15Seq(rc *runCtx) *RunResult {
 				f = simio.Fault{Kind: "forgevarint", Off: off, Arg: simio.ForgeVarint[t.Uint(uint32(len(simio.ForgeVarint)))]}
 			case 7:
 				f = simio.Fault{Kind: "garbage-tail", Off: 1 + int(t.Uint(64)), Arg: uint64(t.Uint(1 << 30))}
+				if t.Chance(500) {
+					f = simio.Fault{Kind: "stride8", Off: int(t.Uint(8)), Arg: uint64(t.Uint(256))}
+				}
 			default:
 				f = simio.Fault{Kind: "dup-tail", Off: off}
 			}
